@@ -66,7 +66,35 @@ def permutation(rep, tier, timeout):
                                                 meta={"family": "influence matrix is permuted consistently with the surface list"}))
                 obs += idents("sec_forces " + sa["name"], ns[sa["name"] + "_sec_forces"], base[sa["name"] + "_sec_forces"],
                               meta={"family": "per-surface forces do not depend on the order of the surface list"})
-            run_obligations(rep, "surface order %s" % lab, obs, timeout, family=lambda ob: "surface list: " + ob.meta["family"], levels=(1,))
+            def rp(ob, env, base_ss=base_ss, ss=ss, meshes=meshes, off0=off0, off1=off1, npan_of=npan_of):
+                from symoas.realvlm import run_states
+
+                envf = model.FillEnv(env)
+                mv = {n: num_inputs({"m": m}, envf)["m"] for n, m in meshes.items()}
+                pa = run_states(base_ss, mv, envf["alpha"], envf["beta"], envf["v"], envf["rho"])
+                pb = run_states(ss, mv, envf["alpha"], envf["beta"], envf["v"], envf["rho"])
+                worst = (0.0, "")
+                for sa in base_ss:
+                    fa, fb = pa.get_val(sa["name"] + "_sec_forces"), pb.get_val(sa["name"] + "_sec_forces")
+                    d = float(np.max(np.abs(fa - fb)) / (1e-12 + np.max(np.abs(fa))))
+                    if d > worst[0]:
+                        worst = (d, "sectional forces of surface %s differ by %.3g (relative) between the two orders" % (sa["name"], d))
+                    for sb in base_ss:
+                        A0 = pa.get_val("mtx")[off0[sa["name"]]:off0[sa["name"]] + npan_of[sa["name"]], off0[sb["name"]]:off0[sb["name"]] + npan_of[sb["name"]]]
+                        A1 = pb.get_val("mtx")[off1[sa["name"]]:off1[sa["name"]] + npan_of[sa["name"]], off1[sb["name"]]:off1[sb["name"]] + npan_of[sb["name"]]]
+                        d = float(np.max(np.abs(A0 - A1)) / (1e-12 + np.max(np.abs(A0))))
+                        if d > worst[0]:
+                            worst = (d, "AIC block %s<-%s differs by %.3g (relative) between the two orders" % (sa["name"], sb["name"], d))
+                return worst[0] > 1e-7, worst[1] or "identical"
+
+            nominal = {}
+            for k_, s_ in enumerate(surfs):
+                mvn = K.rect_mesh(s_["mesh"].shape[0], s_["mesh"].shape[1], s_["symmetry"], jitter=0.25, seed=7 + k_) + np.array([6.0 * k_, 0.0, 0.5 * k_])
+                for idx in np.ndindex(*mvn.shape):
+                    nominal["%s_def_mesh[%s]" % (s_["name"], ",".join(map(str, idx)))] = float(mvn[idx])
+                nominal.update({"gamma_%s[%d]" % (s_["name"], i): -0.7 - 0.1 * i for i in range(npan_of[s_["name"]])})
+            run_obligations(rep, "surface order %s" % lab, obs, timeout, family=lambda ob: "surface list: " + ob.meta["family"], levels=(1,),
+                            replay=rp, nominal=nominal, fixed={"alpha": 3.0, "beta": 2.0, "v": 10.0, "rho": 1.1})
 
 
 def split(rep, tier, timeout):
@@ -108,7 +136,25 @@ def split(rep, tier, timeout):
                     part = ns["left_sec_forces"][i, j, c3] if j < k else ns["right_sec_forces"][i, j - k, c3]
                     obs.append(oblig.Ob("sec_forces[%d,%d,%d]" % (i, j, c3), lhs=part, rhs=nf["whole_sec_forces"][i, j, c3],
                                         meta={"family": "sectional forces of a surface split into two abutting surfaces"}))
-        run_obligations(rep, "split %dx%d at station %d" % (nx, ny, k), obs, timeout, family=lambda ob: "split: " + ob.meta["family"], levels=(1,))
+        def rps(ob, env, sf=sf, sl=sl, sr=sr, m=m, k=k, nym=nym):
+            from symoas.realvlm import run_states
+
+            envf = model.FillEnv(env)
+            mv = num_inputs({"m": m}, envf)["m"]
+            pf = run_states([sf], {"whole": mv}, envf["alpha"], envf["beta"], envf["v"], envf["rho"])
+            ps = run_states([sl, sr], {"left": mv[:, : k + 1], "right": mv[:, k:]}, envf["alpha"], envf["beta"], envf["v"], envf["rho"])
+            Fw = pf.get_val("whole_sec_forces")
+            Fs = np.concatenate([ps.get_val("left_sec_forces"), ps.get_val("right_sec_forces")], axis=1)
+            d = float(np.max(np.abs(Fw - Fs)) / (1e-12 + np.max(np.abs(Fw))))
+            return d > 1e-7, "sectional forces of the whole surface and of the two abutting surfaces differ by %.3g (relative, converged)" % d
+
+        nominal = {}
+        mvn = K.rect_mesh(nx, ny, False, jitter=0.25, seed=5)
+        for idx in np.ndindex(*mvn.shape):
+            nominal["whole_def_mesh[%s]" % ",".join(map(str, idx))] = float(mvn[idx])
+        nominal.update({"circulations[%d]" % i: -0.7 - 0.1 * i for i in range(npan)})
+        run_obligations(rep, "split %dx%d at station %d" % (nx, ny, k), obs, timeout, family=lambda ob: "split: " + ob.meta["family"], levels=(1,),
+                        replay=rps, nominal=nominal, fixed={"alpha": 3.0, "beta": 2.0, "v": 10.0, "rho": 1.1})
 
 
 def mphys_groups(rep, tier, timeout):
